@@ -78,7 +78,10 @@ Judge(e) ==
     LET P == IF e.op = "Construct" THEN EmptyA ELSE Abs(e.pre)
         X == Expected(e, P)
         Y == Abs(e.post)
-        Yc == IF e.op = "Subset" THEN [Y EXCEPT !.atoms = [n \in DOMAIN Y.atoms |-> [Y.atoms[n] EXCEPT !.xf = {}]]] ELSE Y
+        \* a subset: nothing is promised about terms or extra fields (an implementation may keep the terms among the
+        \* selected atoms or none); they are left out of the comparison, the result must still be consistent
+        Yc == IF e.op = "Subset" THEN [Y EXCEPT !.atoms = [n \in DOMAIN Y.atoms |-> [Y.atoms[n] EXCEPT !.xf = {}]],
+                                               !.terms = [k \in Kinds |-> {}], !.cnt = [k \in Kinds |-> 0]] ELSE Y
         NX == NormA(X)
         NY == NormA(Yc)
     IN IF e.src_same # "yes" THEN "inputs-unmodified"
@@ -96,7 +99,7 @@ Judge(e) ==
        ELSE IF NY.terms["dihedral"] # NX.terms["dihedral"] THEN "dihedrals"
        ELSE IF NY.terms["improper"] # NX.terms["improper"] THEN "impropers"
        ELSE IF Yc.cell # X.cell THEN "cell"
-       ELSE IF ~ConsistentA(Yc) THEN "consistent"
+       ELSE IF ~ConsistentA(Y) THEN "consistent"
        ELSE "ok"
 
 \* (TLC's workers do not share the successors of one state; the harness shards the batch over several JVMs)
